@@ -113,6 +113,12 @@ def c13(ctx):
              "of input -- a token is never taken first and rejected afterwards, which would move the reported position past the "
              "offending token")
     look_before_take(ctx, "C13.R9")
+    rep.rule("C13.R10", "which words may be left out: the token kinds the parser matches *optionally and without looking at the outcome* "
+             "(match_and_consume(K) whose result is unused) are exactly the reviewed optional words of the grammar -- `and` after a list "
+             "comma, the `,`/`.` before an end of line, the `,` between `up`s / `down`s, `back` around the value of a return; a keyword "
+             "that the grammar requires (`than`, `into`, `be`, `as` ...) must be demanded with expect_token / expect_any, whose error is "
+             "propagated (R4, ERRFLOW), so leaving it out is a parse error")
+    optional_words_rule(ctx, "C13.R10")
     # ---- R1
     for name, exits_allowed in (("parse_block", False), ("parse_function_block", True)):
         fn = F.fn(PARSER + name)
@@ -390,6 +396,39 @@ def _statement_step_closure(ctx, fn):
     if got != want:
         return False, "the step of the statement loop yields %s; a statement is handed on only after its end-of-line check succeeded, errors are handed on, and the loop ends when there is no statement: %s" % (sorted(got), sorted(want))
     return True, ""
+
+
+OPTIONAL_WORDS = {"And": "`x, and y`: the `and` after a separating comma", "Comma": "a `,` before the end of a line / between `up`s and `down`s",
+                  "Dot": "a `.` before the end of a line", "Back": "`give back x` / `give x back`"}
+
+
+def optional_words_rule(ctx, rule):
+    F, rep = ctx.F, ctx.rep
+    n = 0
+    seen = set()
+    for fn in F.all_bodies(tests=False):
+        if not fn.file.endswith("frontend/parser.rs"):
+            continue
+        for bi, t in fn.calls():
+            if callee_def(t) != PARSER + "match_and_consume" or len(t["args"]) < 2:
+                continue
+            if common.local_is_read(fn, t["dest"]["l"]):
+                continue
+            n += 1
+            ks = tokens.resolve_token_set(F, fn, t["args"][1])
+            top = common.top_fn(F, fn).path.rsplit("::", 1)[-1]
+            if ks is None:
+                rep.ob(rule, "optional::%s::?" % top, False, "%s matches a token set that cannot be read off and ignores the outcome" % top, fn.loc(t["line"]), how="")
+                continue
+            for k in sorted(ks):
+                if (top, k) in seen:
+                    continue
+                seen.add((top, k))
+                ok = k in OPTIONAL_WORDS
+                rep.ob(rule, "optional::%s::%s" % (top, k), ok,
+                       "" if ok else "%s treats `%s` as a word that may be left out (matched optionally, outcome ignored): a statement without it is accepted although the grammar requires it" % (top, k),
+                       fn.loc(t["line"]), how="reviewed optional word: " + OPTIONAL_WORDS.get(k, ""))
+    rep.floor(rule, n, 3, "optional matches whose outcome is ignored")
 
 
 def look_before_take(ctx, rule):
